@@ -598,8 +598,8 @@ def build(ir):
   out.g = g
   pool = int(ir.get('pool', 0))
   sep = _sep(ir.get('names', 'plain'))
-  xshape = {'S4': S4, 'R2': [2, 4], 'O13': [1, 3], 'O35': [3, 5]}[
-      ir.get('x', 'S4')]
+  xshape = {'S4': S4, 'S43': [1, 2, 2, 3], 'R2': [2, 4], 'O13': [1, 3],
+            'O35': [3, 5]}[ir.get('x', 'S4')]
   weights = {}  # (subgraph, op index) -> (tensor id, buffer, array)
   for si, sub in enumerate(ir['subgraphs']):
     prefix = sub.get('prefix', '')
